@@ -64,9 +64,17 @@ VersionFlags == [overrun |-> TRUE,       \* tolerates-immutable-read-overrun
 VersionRes(S) == [avail |-> Allocatable(S), maximm |-> Allocatable(S), maxmut |-> MaxMutableShareSize,
                   flags |-> VersionFlags, appver |-> TRUE]
 
+(* --------------------------- reconfiguration ----------------------------- *)
+\* The node is stopped (stopService aborts every upload in progress) and started again on the same
+\* directory with a different readonly_storage setting: the shares and the advisories stay.
+Reconfigure(S, ro) ==
+  [S EXCEPT !.readonly = ro,
+            !.imm = [si \in DOMAIN S.imm |-> [sh \in DOMAIN S.imm[si] |->
+                       IF S.imm[si][sh].st = "incoming" THEN AbsentB ELSE S.imm[si][sh]]]]
+
 (* ---- what the documents promise, stated without the operators above ---- *)
 \* the version message and allocation agree: a single new share of any advertised size is
-\* accepted, and nothing larger than the advertisement is
+\* accepted
 AdvertisedIsAllocatable(S, v, si, sh) ==
   \A size \in 1..Min(v.avail, v.maximm) :
      S.imm[si][sh].st = "absent" => AllocCount(S, si, {sh}, size) = 1
